@@ -136,6 +136,11 @@ impl Planner {
                 let is_single_hop = expand.min_hops == 1 && expand.max_hops == Some(1);
 
                 if is_single_hop {
+                    // A chain continues downwards only while each hop starts where the
+                    // hop below it ends; sibling hops from one node are not a chain
+                    if !Self::continues_chain(expand) {
+                        return (1, &expand.input);
+                    }
                     let (inner_count, base) = Self::count_expand_chain(&expand.input);
                     (inner_count + 1, base)
                 } else {
@@ -144,6 +149,14 @@ impl Planner {
                 }
             }
             _ => (0, op),
+        }
+    }
+
+    /// Does this expand start at the node the expand below it (if any) ends at?
+    fn continues_chain(expand: &ExpandOp) -> bool {
+        match expand.input.as_ref() {
+            LogicalOperator::Expand(inner) => expand.from_variable == inner.to_variable,
+            _ => true,
         }
     }
 
@@ -161,6 +174,9 @@ impl Planner {
                 break;
             }
             chain.push(expand);
+            if !Self::continues_chain(expand) {
+                break;
+            }
             current = &expand.input;
         }
 
